@@ -269,7 +269,7 @@ func verify(argv []string) int {
 			defer func() { <-sem }()
 			t := timeout
 			if o.Cover {
-				t = 5
+				t = 2
 			}
 			results[i] = vc.Solve(o, outDir, t, seed, *tier == "thorough" && !o.Cover)
 		}(i, o)
